@@ -19,6 +19,9 @@ CHECKS = {
  'C06': dict(tech='TLA+ level-assignment and schedule specs (LevelBuilder.tla, SolverTrace.tla, SolverSplit.tla) in TLC; recorded levels, solutions and hook traces of real solves validated; every solution re-evaluated on independently exported rows',
              text='The level assignment is transcribed and model-checked; for TLC-generated programs over F_47 (every assignment) and corpus circuits with hints, lookups and commitments on several curves, the solution the real solver hands to the backend (captured at a build-tag hook) is re-evaluated on the exported rows, instruction reads/writes/levels observed through the blueprints are checked for soundness, and scheduling traces (level, instruction, wire-set events) are validated by TLC.',
              note='Failure direction (fails only when a constraint is violated) is judged through ApiSemantics on generated programs; interleavings are those the Go runtime produces plus the task-split boundary sweep of C10.', ref='6 C06'),
+ 'C07': dict(tech='TLA+ specification of the documented leaf order and visibility (Schema.tla) generating circuit struct types; each generated Go type replayed through NewWitness, encodings, Compile and Solve',
+             text='Schema.tla defines declaratively which leaves a circuit struct has, in which order and with which visibility, and generates ~240 type trees (all tag forms, arrays, slices, nested / pointer / embedded structs); a Go circuit type is generated per tree and the real NewWitness (full, Public, PublicOnly), binary and JSON round trips, and Compile+Solve with both builders are compared with the specification (every variable carries the value assigned to its field; exchanging two values breaks the circuit), on every field; 16 assignment value kinds are checked to reduce modulo the field.',
+             note='The type corpus is a fixed seeded sample of the tree grammar (regenerated when the spec changes); tags on embedded fields and inherit without explicit enclosing visibility are outside the documented domain.', ref='6 C07'),
  'C08': dict(tech='TLA+ step-machine model of both verifiers over input shapes (VerifierRobust.tla) + framing alphabet (Framing.tla), exhaustive in TLC; every shape and mutation replayed on real decoders/verifiers',
              text='TLC explores every combination of variable-length-part lengths (0..4 / 0..10) against the key on the transcribed step lists (no out-of-range access, inconsistent shapes end in an error) and enumerates every framing mutation of the encodings; all are applied to real proofs/witnesses (direct, compressed and raw encodings) and the real decode/verify outcome must be error or acceptance, never a panic or crash.',
              note='Content-level corruption inside a point encoding is sampled by bit flips; arbitrary byte strings are covered structurally, not by coverage-guided fuzzing. Allocation-bomb prefixes run under ulimit -v 8GB.', ref='6 C08'),
